@@ -116,6 +116,10 @@ def gen_cases(tier, seed):
             plist.append([{'at': ['listener', 'waiting', k], 'act': ['pause', 'p']}, {'at': 'q', 'act': ['play']}, {'at': 'q', 'act': ['resume', ['after-play']]}])
         for i, plan in enumerate(plist):
             yield {'kind': 'plain', 'name': name, 'program': prog, 'plan': plans.uniq(plan, 'q%d' % i), 'drain': True, 'listener': True}
+        # the same with a WAITING state class of the application's own (a subclass of the library's, plugged in with get_state_classes)
+        own = [p for p in plist if not any(e['act'][0] == 'reincarnate' for e in p)]
+        for i, plan in enumerate(own[:120] + own[-60:]):
+            yield {'kind': 'plain', 'name': name, 'program': prog, 'plan': plans.uniq(plan, 'o%d' % i), 'drain': True, 'listener': True, 'own_waiting_state': True}
     # (b) workchains
     for name, prog in sorted(_wc_programs().items()):
         items = []
